@@ -16,6 +16,7 @@ import (
 	"github.com/consensys/gnark-crypto/ecc/bn254/fr"
 	"github.com/consensys/gnark/frontend"
 	"github.com/wormhole-foundation/example-near-light-client/challenger"
+	"github.com/wormhole-foundation/example-near-light-client/fri"
 	gl "github.com/wormhole-foundation/example-near-light-client/goldilocks"
 	"github.com/wormhole-foundation/example-near-light-client/poseidon"
 	"github.com/wormhole-foundation/example-near-light-client/types"
@@ -215,6 +216,7 @@ type challCircuit struct {
 	VerifierData      variables.VerifierOnlyCircuitData
 	CommonCircuitData types.CommonCircuitData `gnark:"-"`
 	Out               *[]frontend.Variable    `gnark:"-"`
+	PowBits           uint64                  `gnark:"-"` // >0: also assert the PoW condition with this difficulty
 }
 
 func (c *challCircuit) Define(api frontend.API) error {
@@ -233,6 +235,10 @@ func (c *challCircuit) Define(api frontend.API) error {
 	o = append(o, ch.FriChallenges.FriPowResponse.Limb)
 	o = append(o, limbs(ch.FriChallenges.FriQueryIndices)...)
 	*c.Out = o
+	if c.PowBits > 0 {
+		cd := c.CommonCircuitData
+		fri.NewChip(api, &cd, &cd.FriParams).VerifLeadingZeros(ch.FriChallenges.FriPowResponse, types.FriConfig{ProofOfWorkBits: c.PowBits})
+	}
 	return nil
 }
 
